@@ -22,7 +22,7 @@ Proof.
         split; [lia|intros _; lia].
       - destruct (IH _ _ _ _ H) as [A _]. split; [lia|discriminate]. }
     destruct (cut_colon [] l) as [[k v]|]; [|discriminate].
-    destruct (starts hash (trim_space k)); [discriminate|].
+    destruct (starts hash (trim_space k) || starts dashc (trim_space k)); [discriminate|].
     destruct (mem (trim_space k) (values p)); [discriminate|].
     destruct (IH _ _ _ _ H) as [A _]. split; [lia|intros _; lia].
 Qed.
